@@ -26,14 +26,23 @@ def getitem(x, key):
             return result
         return GCXS.from_coo(result)
 
+    orig_key = key if isinstance(key, tuple) else (key,)
     key = list(normalize_index(key, x.shape))
 
     # zip_longest so things like x[..., None] are picked up.
     if len(key) != 0 and all(isinstance(k, slice) and k == slice(0, dim, 1) for k, dim in zip_longest(key, x.shape)):
         return x
 
+    # several index arrays are paired element by element (NumPy), which the selection kernels below,
+    # working axis by axis, cannot express: use the COO implementation
+    if sum(isinstance(k, np.ndarray) for k in key) > 1:
+        return GCXS.from_coo(x.tocoo()[orig_key])
+
     # return a single element
     if all(isinstance(k, int) for k in key):
+        if any(k is Ellipsis for k in orig_key):
+            # NumPy returns a 0-d array, not a scalar, when the index contains an Ellipsis
+            return GCXS.from_coo(x.tocoo()[orig_key])
         return get_single_element(x, key)
 
     shape = []
